@@ -1,30 +1,41 @@
 #!/usr/bin/env python3
 """Builds /verif/seeds/<name>/ from the 'fix:' commits of /repo: the reverse of each fix is a realistic
 seeded defect (the original bug). Expectations (which rule reports which construct, for which property)
-are measured by running the checks on a scratch worktree with the fix reverted."""
-import subprocess, os, json, re, sys
+are measured by running the checks on a scratch worktree with the fix reverted.
+
+The commit the worktrees are cut from and the checker binary are frozen when the tool starts, so that
+commits and rebuilds made while it runs do not leak into the expectations. Four reverts are measured at
+a time. usage: make_revert_seeds.py [name-prefix ...]  (only the seeds whose name starts with a prefix)"""
+import subprocess, os, json, re, sys, shutil, tempfile
+from concurrent.futures import ThreadPoolExecutor
 HERE = os.path.dirname(os.path.dirname(os.path.abspath(__file__)))
 ENV = dict(os.environ, GOFLAGS="-mod=mod", GOPROXY="off", GOSUMDB="off", GOTOOLCHAIN="local", GOWORK="off")
-log = subprocess.run(["git","-C","/repo","log","--format=%h %s","38c62bf..HEAD"],capture_output=True,text=True).stdout.splitlines()
+HEAD = subprocess.run(["git","-C","/repo","rev-parse","HEAD"],capture_output=True,text=True).stdout.strip()
+BIN = tempfile.mktemp(prefix="obiverif-frozen-")
+shutil.copy(os.path.join(HERE,"bin","obiverif"), BIN)
+log = subprocess.run(["git","-C","/repo","log","--format=%h %s","38c62bf.."+HEAD],capture_output=True,text=True).stdout.splitlines()
 fixes=[l.split(" ",1) for l in log if l.split(" ",1)[1].startswith("fix:")]
 fixes.reverse()
-for i,(h,subj) in enumerate(fixes,1):
+only=sys.argv[1:]
+
+def one(args):
+    i,h,subj=args
     name="fix%02d-%s"%(i,h)
+    if only and not any(name.startswith(o) for o in only):
+        return None
     d=os.path.join(HERE,"seeds",name)
     os.makedirs(d,exist_ok=True)
     patch=subprocess.run(["git","-C","/repo","diff",h,h+"^"],capture_output=True,text=True).stdout
     open(os.path.join(d,"patch.diff"),"w").write(patch)
     wt="/tmp/revwt-%s"%h
-    subprocess.run(["git","-C","/repo","worktree","add","-q",wt,"HEAD"],check=True)
+    subprocess.run(["git","-C","/repo","worktree","add","-q","--detach",wt,HEAD],check=True)
     try:
         r=subprocess.run(["git","apply",os.path.join(d,"patch.diff")],cwd=wt,capture_output=True,text=True)
         if r.returncode!=0:
-            print(name,"revert does not apply on HEAD:",r.stderr.strip()[:120]); expect=[]; note="revert does not apply cleanly on HEAD (later fix touched the same lines)"
+            expect=[]; note="revert does not apply cleanly on HEAD (later fix touched the same lines)"
         else:
-            out=subprocess.run([os.path.join(HERE,"bin","obiverif"),"all","--repo",wt,"--no-evidence","-v"],capture_output=True,text=True,env=ENV).stdout
+            out=subprocess.run([BIN,"all","--repo",wt,"--no-evidence","-v"],capture_output=True,text=True,env=ENV).stdout
             expect=[]
-            # map violations to properties: lines "  [VIOLATION] RULE pos key: msg" appear under each property run; use VIOLATION property lines order
-            cur=None
             hits=[]
             for l in out.splitlines():
                 m=re.match(r"^(\S+): rule (\S+): (.*?): ",l)
@@ -38,4 +49,9 @@ for i,(h,subj) in enumerate(fixes,1):
         subprocess.run(["git","-C","/repo","worktree","remove","--force",wt])
     meta={"id":name,"origin":"reverse of /repo commit %s (%s): re-introduces the original defect"%(h,subj),"property":expect[0]["property"] if expect else "","expect":expect,"note":note}
     json.dump(meta,open(os.path.join(d,"meta.json"),"w"),indent=1)
-    print(name,len(expect),"expectations",subj[:70])
+    return "%s %d expectations %s %s"%(name,len(expect),subj[:70],("["+note[:40]+"]") if note else "")
+
+with ThreadPoolExecutor(4) as ex:
+    for r in ex.map(one,[(i,h,s) for i,(h,s) in enumerate(fixes,1)]):
+        if r: print(r, flush=True)
+os.unlink(BIN)
